@@ -89,7 +89,7 @@ def run(ctx):
         if len(pimpl) != len(pcases):
             ctx.broken.append({"kind": "correspondence", "detail": "harness produced %d lines for %d concurrent cases: %s" % (len(pimpl), len(pcases), perr[-500:])})
     ident_replay = []
-    if ctx.replay and cases and cases[0].startswith("ident "):
+    if ctx.replay and cases and cases[0].split()[0] in ("ident", "panicid"):
         ident_replay, cases = cases, []
     rc, impl, err = ctx.run_harness(binp, [], cases)
     model = ctx.oracle("C20", cases)
@@ -120,6 +120,10 @@ def run(ctx):
     # identity of the values handed along (direct oracle only): the steps see and return the very objects — a slice
     # argument with its capacity, a pointer into it, a resource with a Close method nobody is entitled to call
     icases = ["ident %d %d" % (n, k) for n in range(2, 21) for k in (1, 3)]
+    # a step that panics: the caller recovers the very value the step panicked with, every time, and the composed function
+    # is as good as new afterwards (also after 70 000 recovered panics)
+    icases += ["panicid %d %d %d" % (n, k, 3) for n in range(2, 21) for k in sorted({1, (n + 1) // 2, n})]
+    icases += ["panicid %d %d %d" % (n, ctx.rng.randrange(1, n + 1), 70000) for n in ((2, 3, 20) if not ctx.thorough() else range(2, 21))]
     if ctx.replay:
         icases = ident_replay
     if icases:
@@ -127,8 +131,12 @@ def run(ctx):
         for c, got in zip(icases, iimpl):
             ctx.count(c)
             ctx.hist("identity_N", c.split()[1])
-            want = " | ".join(["same cap=8 open"] * int(c.split()[2]))
-            if got != want:
+            want = " | ".join(["same cap=8 open"] * int(c.split()[2])) if c.startswith("ident ") else "same ok"
+            if got != want and c.startswith("panicid "):
+                n = int(c.split()[1])
+                ctx.violations.append(vlib.Violation("impl", "Pipe%s: when step %s panics, the composed function does not panic with that very value, or is not usable afterwards (%s recovered calls, then one with a good argument): %s"
+                                                     % ("" if n == 2 else n, c.split()[2], c.split()[3], got), case=c, expected=want, got=got, key={"N": n, "class": "panic-identity"}))
+            elif got != want:
                 n = int(c.split()[1])
                 ctx.violations.append(vlib.Violation("impl", "Pipe%s does not hand on the very values its steps return (argument slice, pointer into it, a resource with a Close method): %s" % ("" if n == 2 else n, got),
                                                      case=c, expected=want, got=got, key={"N": n, "class": "identity"}))
